@@ -187,16 +187,29 @@ end
 def tableOf (L : LBlock) : StateId → Option LDef := fun v => (ldefsB L).lookup v
 
 /- ===== helpers of the pass ===== -/
-/- `find_all_acc_names_in_region` (with repetitions, any depth) -/
+/- `_accelerators_threaded_through` of the repaired pass (fixes/FC07a): `find_all_acc_names_in_region` (with
+repetitions, any depth) plus the accelerators whose state a loop (here or nested) already carries -/
 mutual
 def accsPS : PStmt → List AccId
   | .setup a _ _ _ => [a]
   | .ifS _ t e => accsPB t ++ accsPB e
-  | .forS _ _ _ _ b _ => accsPB b
+  | .forS _ _ _ _ b car => accsPB b ++ car.map (·.acc)
   | _ => []
 def accsPB : PBlock → List AccId
   | .nil => []
   | .cons s r => accsPS s ++ accsPB r
+end
+
+/- `find_all_acc_names_in_region` alone (the pass before fixes/FC07a) -/
+mutual
+def accsOldPS : PStmt → List AccId
+  | .setup a _ _ _ => [a]
+  | .ifS _ t e => accsOldPB t ++ accsOldPB e
+  | .forS _ _ _ _ b _ => accsOldPB b
+  | _ => []
+def accsOldPB : PBlock → List AccId
+  | .nil => []
+  | .cons s r => accsOldPS s ++ accsOldPB r
 end
 
 /- `has_accfg_effects` of an op of the fragment: an unannotated call, at any depth -/
@@ -335,19 +348,21 @@ def forFinishP (lb ub st iv : Var) (us : List AccId) (en : List (AccId × StateI
      !(us.contains c.acc) || ρ.lookup c.init != en.2.1 c.acc || (wb.rho.lookup c.yld).isNone⟩
 
 /-
-`_weave_states_in_region`. Arguments: `σ` the state dictionary, `cur` (bookkeeping of the model only: the state
-produced by the last setup of an accelerator in the straight-line code in front of this point, reset by control
-flow and by effectful calls), `n` the next fresh state id (every state value of the output gets a fresh id in
-definition order: the comparison with the real pass is up to renaming of state values), `ρ` input state id ↦
+`_weave_states_in_region` (with fixes/FC07a). Arguments: `σ` the state dictionary, `cur` (bookkeeping of the model
+only: the state produced by the last setup of an accelerator in the straight-line code in front of this point, reset
+by control flow and by effectful calls), `n` the next fresh state id (every state value of the output gets a fresh id
+in definition order: the comparison with the real pass is up to renaming of state values), `ρ` input state id ↦
 output state id (`rewriter.replace_op` redirects the uses of a re-created setup).
 
 * setup: re-linked to `σ a` (`op.in_state != state.get(accel)` only decides whether the op object is re-created;
   either way the resulting op has `in_state = state.get(accel)`), then `σ a := out`.
 * scf.if: both branches from copies of `σ`; invalidated in a branch ⇒ dropped; `calc_if_state_delta` ⇒ new results.
-* scf.for: no setup inside ⇒ `has_accfg_effects → clear` (the body is walked by the model but produces no link);
-  otherwise empty setups for accelerators without state, block arguments, body, deletion of accelerators that are
-  not set up in the body but invalidated by it, empty setup in front of the yield where the state got invalidated,
-  yield operands, results.
+* scf.for: `us` = accelerators set up in the body or already carried by this / a nested loop; none ⇒
+  `has_accfg_effects → clear` (the body is walked by the model but produces no link); otherwise empty setups for
+  accelerators without state, block arguments (an EXISTING block argument is re-used and its init operand re-linked
+  to the state in front of the loop), body, deletion of accelerators that are not in `us` but invalidated by the
+  body, empty setup in front of the yield where the state got invalidated, yield operands (also of existing block
+  arguments: the state that really ends the body), results.
 * call: `has_accfg_effects → clear`.
 -/
 mutual
@@ -364,25 +379,18 @@ def weaveS : PStmt → Sig → Sig → Nat → List (StateId × StateId) → WS
       let wt := weaveB t σ noSig n ρ
       let we := weaveB e σ noSig wt.nxt ρ
       ifFinish c σ (sortU (accsPB t ++ accsPB e)) wt we ρ
-  | .forS lb ub st iv body [], σ, _, n, ρ =>
-      let us := sortU (accsPB body)
+  | .forS lb ub st iv body car, σ, _, n, ρ =>
+      let us := sortU (accsPB body ++ car.map (·.acc))
       if us.isEmpty then
         let wb := weaveB body σ noSig n ρ
         ⟨[], .forS lb ub st iv wb.blk [], if effPB body then noSig else σ, noSig, wb.nxt, ρ, wb.bad⟩
       else
         let en := ensure us σ n
-        forFinish lb ub st iv us en (weaveB body (forBodySig us en) noSig (en.2.2 + us.length) ρ) ρ
-  | .forS lb ub st iv body (c :: cs), σ, _, n, ρ =>
-      -- the same code path of the pass on a loop that already carries state values
-      let us := sortU (accsPB body)
-      if us.isEmpty then
-        -- (`continue`: nothing is touched; outside the fragment the correspondence feeds to the model)
-        let wb := weaveB body σ noSig n ρ
-        ⟨[], .forS lb ub st iv wb.blk [], if effPB body then noSig else σ, noSig, wb.nxt, ρ, true⟩
-      else
-        let en := ensure us σ n
-        let ρb := ((c :: cs).map fun k => (k.arg, (((mkIds us en.2.2).lookup k.acc).getD 0))) ++ ρ
-        forFinishP lb ub st iv us en (weaveB body (forBodySig us en) noSig (en.2.2 + us.length) ρb) ρ (c :: cs)
+        -- existing block arguments / results keep their role: the input ids are renamed to the new ids
+        let ρb := (car.map fun k => (k.arg, (((mkIds us en.2.2).lookup k.acc).getD 0))) ++ ρ
+        let wb := weaveB body (forBodySig us en) noSig (en.2.2 + us.length) ρb
+        forFinish lb ub st iv us en wb
+          ((car.map fun k => (k.res, (((mkIds us (ensure us wb.sig wb.nxt).2.2).lookup k.acc).getD 0))) ++ ρ)
 def weaveB : PBlock → Sig → Sig → Nat → List (StateId × StateId) → WB
   | .nil, σ, _, n, ρ => ⟨.nil, σ, n, ρ, false⟩
   | .cons s r, σ, cur, n, ρ =>
@@ -395,6 +403,53 @@ end
 def weave (p : PBlock) : LBlock := (weaveB p noSig noSig 0 []).blk
 /-- the pass leaves the IR malformed (the module verifier then raises) -/
 def weaveBad (p : PBlock) : Bool := (weaveB p noSig noSig 0 []).bad
+
+/- The pass BEFORE fixes/FC07a (findings DC07a, DC07b): an existing state block argument is re-used
+(`find_existing_block_arg`) but neither its init operand nor its yield operand is re-linked (`forFinishP`), and only
+accelerators set up in the body count as touched. Used by the driver when the findings are listed as open. -/
+mutual
+def weaveOldS : PStmt → Sig → Sig → Nat → List (StateId × StateId) → WS
+  | .setup a fs out _, σ, cur, n, ρ =>
+      ⟨[], .setup a fs n (σ a), sset σ a n, sset cur a n, n + 1, (out, n) :: ρ, false⟩
+  | .launch a lv s, σ, cur, n, ρ =>
+      ⟨[], .launch a lv (ρ.lookup s) ((ρ.lookup s).isSome && ρ.lookup s == cur a), σ, cur, n, ρ, false⟩
+  | .await a, σ, cur, n, ρ => ⟨[], .await a, σ, cur, n, ρ, false⟩
+  | .pure d op args, σ, cur, n, ρ => ⟨[], .pure d op args, σ, cur, n, ρ, false⟩
+  | .call t e, σ, cur, n, ρ =>
+      ⟨[], .call t e, if e then noSig else σ, if e then noSig else cur, n, ρ, false⟩
+  | .ifS c t e, σ, _, n, ρ =>
+      let wt := weaveOldB t σ noSig n ρ
+      let we := weaveOldB e σ noSig wt.nxt ρ
+      ifFinish c σ (sortU (accsOldPB t ++ accsOldPB e)) wt we ρ
+  | .forS lb ub st iv body [], σ, _, n, ρ =>
+      let us := sortU (accsOldPB body)
+      if us.isEmpty then
+        let wb := weaveOldB body σ noSig n ρ
+        ⟨[], .forS lb ub st iv wb.blk [], if effPB body then noSig else σ, noSig, wb.nxt, ρ, wb.bad⟩
+      else
+        let en := ensure us σ n
+        forFinish lb ub st iv us en (weaveOldB body (forBodySig us en) noSig (en.2.2 + us.length) ρ) ρ
+  | .forS lb ub st iv body (c :: cs), σ, _, n, ρ =>
+      -- the same code path of the pass on a loop that already carries state values
+      let us := sortU (accsOldPB body)
+      if us.isEmpty then
+        -- (`continue`: nothing is touched; outside the fragment the correspondence feeds to the model)
+        let wb := weaveOldB body σ noSig n ρ
+        ⟨[], .forS lb ub st iv wb.blk [], if effPB body then noSig else σ, noSig, wb.nxt, ρ, true⟩
+      else
+        let en := ensure us σ n
+        let ρb := ((c :: cs).map fun k => (k.arg, (((mkIds us en.2.2).lookup k.acc).getD 0))) ++ ρ
+        forFinishP lb ub st iv us en (weaveOldB body (forBodySig us en) noSig (en.2.2 + us.length) ρb) ρ (c :: cs)
+def weaveOldB : PBlock → Sig → Sig → Nat → List (StateId × StateId) → WB
+  | .nil, σ, _, n, ρ => ⟨.nil, σ, n, ρ, false⟩
+  | .cons s r, σ, cur, n, ρ =>
+      let ws := weaveOldS s σ cur n ρ
+      let wr := weaveOldB r ws.sig ws.cur ws.nxt ws.rho
+      ⟨prepend ws.pre (.cons ws.stmt wr.blk), wr.sig, wr.nxt, wr.rho, ws.bad || wr.bad⟩
+end
+
+def weaveOld (p : PBlock) : LBlock := (weaveOldB p noSig noSig 0 []).blk
+def weaveOldBad (p : PBlock) : Bool := (weaveOldB p noSig noSig 0 []).bad
 
 /- no loop of the input carries a state value yet (pre-existing links only on setups) -/
 mutual
